@@ -647,23 +647,15 @@ func intervene12(h h12, iv string) h12 {
 			}
 		})
 	case "no-heredoc-raw":
-		var fixRaw func(r map[string]any)
-		fixRaw = func(r map[string]any) {
-			if src, ok := r["src"].(string); ok && strings.HasPrefix(src, "<<") {
-				r["src"] = "\"h\""
-				changed = true
-			}
-			if args, ok := r["args"].([]any); ok {
-				for _, a := range args {
-					if m, ok := a.(map[string]any); ok {
-						fixRaw(m)
-					}
-				}
-			}
-		}
+		// K2 is about an expression that ENDS in a heredoc: only the
+		// top-level recipe is neutralised.  A heredoc nested in a generated
+		// object is followed by the member's own newline and must work.
 		walkOps(opsOf(n), func(op map[string]any) {
 			if r, ok := op["raw"].(map[string]any); ok {
-				fixRaw(r)
+				if src, ok := r["src"].(string); ok && strings.HasPrefix(src, "<<") {
+					r["src"] = "\"h\""
+					changed = true
+				}
 			}
 		})
 	default:
